@@ -553,6 +553,25 @@ func (x ExtendedReport) MarshalSize() int {
 // Marshal encodes the ExtendedReport in binary
 func (x ExtendedReport) Marshal() ([]byte, error) {
 	for _, p := range x.Reports {
+		// the thinning value is a 4-bit field, the TTL / hop limit kind a 2-bit field
+		switch b := p.(type) {
+		case *LossRLEReportBlock:
+			if b.T > 0x0F {
+				return []byte{}, errFieldOutOfRange
+			}
+		case *DuplicateRLEReportBlock:
+			if b.T > 0x0F {
+				return []byte{}, errFieldOutOfRange
+			}
+		case *PacketReceiptTimesReportBlock:
+			if b.T > 0x0F {
+				return []byte{}, errFieldOutOfRange
+			}
+		case *StatisticsSummaryReportBlock:
+			if b.TTLorHopLimit > 0x03 {
+				return []byte{}, errFieldOutOfRange
+			}
+		}
 		p.setupBlockHeader()
 		// every report block must be a whole number of 32-bit words (RFC 3611, section 3);
 		// an odd number of RLE chunks needs a terminating null chunk
